@@ -225,8 +225,9 @@ class TaggedPipeline:
     the symbolic executor), the value is symbolic and flows through every stage.
     counts[i] = number of outputs element i finally yields (0/1 for filtering chains, 0..2 with flat_map)."""
 
-    def __init__(self, ty, counts, src="tslice", count_calls=False):
+    def __init__(self, ty, counts, src="tslice", count_calls=False, fan_extra=1):
         self.count_calls = count_calls
+        self.fan_extra = fan_extra  # how many items the flat_map yields beyond those the following filter keeps
         self.ty = ty
         self.counts = list(counts)
         self.src = src
@@ -293,7 +294,7 @@ class TaggedPipeline:
                         keep = []
                         for i in range(n):
                             # the flat_map yields min(c[i] + 1, 4) items, the filter keeps the LAST c[i] of them
-                            f = min(c[i] + 1, 4)
+                            f = min(c[i] + self.fan_extra, 4)
                             keep += [(f - c[i]) <= j < f for j in range(4)] + [False] * 4
                         out.append(("filter", f"move |x: &(usize, u8)| {{ {bumpx}{self.table(keep)}[x.0] }}"))
                     else:
@@ -305,7 +306,7 @@ class TaggedPipeline:
                 first = False
             elif op == "flat_map":
                 last = si == len(self.ops) - 1
-                fan = c if last else [min(x + 1, 4) for x in c]
+                fan = c if last else [min(x + self.fan_extra, 4) for x in c]
                 out.append(("flat_map", f"move |x: {arg_t}| {{ {pr}{get}{bump} [(8 * t, v), (8 * t + 1, v ^ 8), (8 * t + 2, v ^ 16), (8 * t + 3, v ^ 24)].into_iter().take({self.table(fan)}[t]) }}"))
                 first = False
         return out
